@@ -82,7 +82,7 @@ func (f *Ash) Call(s *slip.Scope, args slip.List, depth int) (result slip.Object
 		} else {
 			bi.Lsh((*big.Int)(ti), uint(sh))
 		}
-		result = (*slip.Bignum)(&bi)
+		result = reduceInteger(&bi)
 	default:
 		slip.TypePanic(s, depth, "integer", ti, "integer")
 	}
